@@ -148,6 +148,9 @@ def run_shard(acc, prop, tier, seed, shard, nshards, **kw):
     try:
         n = 4 if tier == "quick" else 120
         for wi in range(n):
+            from .. import core as _core
+            if _core.skip_world(wi):
+                continue
             rng = sub_rng("n", seed, PROP, tier, shard, wi)
             tp = rng.choice([3, 8, 12, 14, 20, 33, 40]) if wi else 40
             rw = run_registry(acc, srv, (seed, PROP, tier, shard, wi), tp)
